@@ -6,6 +6,8 @@ C13 — Planning and speaking stay within caps; untrusted plans are sanitised.
   Clem/Props/C13/Rag.lean       rag_once: ≤ 1 retrieve call (0 when used), cap + Speak first for the refined plan;
                                 T2 invocations per turn ≤ 2 and ≤ 1 + max 0 max_rag_loops
   Clem/Props/C13/Speak.lean     token budget of speak / llm_speak down to str.split / " ".join; max_tokens=0 quirk
+  Clem/Props/C13/TurnLine.lean  the line of a turn (`_sanitize_utterance ∘ speak`) stays within the budget, over the regenerated
+                                table of utterance rewrite rules
   Clem/Props/C13/Sanitize.lean  parse_and_validate: totality, soundness, schema/enforcement agreement
 
 `Delib_pure` is definitional: `deliberate : Bundle α → List Op` is a function of the bundle alone; that the Python
@@ -15,6 +17,7 @@ import Clem.Props.C13.Plan
 import Clem.Props.C13.Rag
 import Clem.Props.C13.Speak
 import Clem.Props.C13.Sanitize
+import Clem.Props.C13.TurnLine
 
 namespace Clem.Props.C13
 open Clem.T3 Clem.Gen.T3Consts
